@@ -128,10 +128,13 @@ CHECKS["C02"] = dict(
         dict(pkg="internal/cc", entry="HC02AdapterTWCC", params=dict(kind=1, pad=0)),
         dict(pkg="internal/cc", entry="HC02AdapterTWCC", params=dict(kind=1, pad=1)),
     ] + [dict(pkg="internal/verifchain", entry="HC02RawRTP", params=dict(kind=k, len=L), flags=["-unwind", "1200"], require_covers=["untrusted packet handled"])
-         for (k, L) in ((3, 16), (5, 16), (6, 16), (7, 16), (3, 20), (5, 20))],
-    bounds=dict(quick="structurally inconsistent but parseable TWCC feedback (status count 0..4, run length 0..12 beyond the count, 7-symbol vector chunks with received padding, exactly the deltas rtcp.Unmarshal would produce) through rtpfb.convertTWCC and the gcc FeedbackAdapter; every index/nil/slice operation is an implicit assertion; a well-formed probe feedback afterwards. Raw RTP: ANY byte string of 16 bytes (20 for the NACK generator and report receiver) (all bytes symbolic except that the sequence-number field is within 8 of the probe packet's) with any reported length n <= that size (stale bytes beyond n symbolic too) through the BindRemoteStream reader of the NACK generator, report receiver, TWCC sender and RFC 8888 sender (real rtp.Header.Unmarshal from SSA), then a well-formed packet",
+         for (k, L) in ((3, 16), (5, 16), (6, 16), (7, 16), (3, 20), (5, 20))] + [
+        dict(pkg="pkg/gcc", entry="HC02LeakyBucketSize", params=dict(concretenow=1, maxlen=1500), require_covers=["accepted"]),
+        dict(pkg="pkg/gcc", entry="HC02LeakyBucketSize", params=dict(concretenow=1, maxlen=4000), require_covers=["accepted"]),
+    ],
+    bounds=dict(quick="structurally inconsistent but parseable TWCC feedback (status count 0..4, run length 0..12 beyond the count, 7-symbol vector chunks with received padding, exactly the deltas rtcp.Unmarshal would produce) through rtpfb.convertTWCC and the gcc FeedbackAdapter; every index/nil/slice operation is an implicit assertion; a well-formed probe feedback afterwards. Raw RTP: ANY byte string of 16 bytes (20 for the NACK generator and report receiver) (all bytes symbolic except that the sequence-number field is within 8 of the probe packet's) with any reported length n <= that size (stale bytes beyond n symbolic too) through the BindRemoteStream reader of the NACK generator, report receiver, TWCC sender and RFC 8888 sender (real rtp.Header.Unmarshal from SSA), then a well-formed packet. Outgoing size: ANY payload length 0..1500 / 0..4000 through the gcc LeakyBucketPacer (Write on the caller, release by the pacer goroutine on a harness-fired tick), a second packet afterwards, Close",
                 thorough="same"),
-    outside=["raw RTCP byte strings (rtcp.Unmarshal on symbolic buffers)", "RTP buffers longer than 16-20 bytes (28 bytes did not finish in 20 min: CSRC/extension parsing paths)", "outgoing packet sizes 0..65535", "stats, packetdump, jitter buffer, flexfec, pacers, nack responder RTCP reader"],
+    outside=["raw RTCP byte strings (rtcp.Unmarshal on symbolic buffers)", "RTP buffers longer than 16-20 bytes (28 bytes did not finish in 20 min: CSRC/extension parsing paths)", "outgoing packet sizes above 4000 and through interceptors other than the leaky bucket pacer", "stats, packetdump, jitter buffer, flexfec, pacers, nack responder RTCP reader"],
     assumptions=["the unmarshal post-condition P_U used to build the structured feedback (DESIGN.md C02)"],
 )
 
